@@ -186,6 +186,19 @@ theorem deep_range (s : CSt K V) (f : K → V → Bool) :
     by_cases he : Gen.itemOf_expiredWithNow i.e s.now <;> simp [deep_simp, hide, he]
   · rfl
 
+/-- `Range` when the underlying map hands the visitor the pairs `π` (a traversal concurrent with writers): the user's
+visitor is called exactly on `walk now f π` - the unexpired ones, at the clock read when the traversal began, in
+the order handed over, until it returns false; nothing is modified -/
+theorem deep_range_handed (s : CSt K V) (f : K → V → Bool) (π : List (K × Item V)) :
+    deepStep (twinMapOfHanded π) s (.range f) = some (s, { out := .visits (Model.CacheOf.walk s.now f π) }) := by
+  simp [deep_simp, twinMapOfHanded, twinMapOf]
+  rw [loop_walk (now := s.now) (f := f) (h0 := [Val.ufn (UFn.visitor f), Val.int s.now])]
+  · simp
+  · intro k i w hw
+    cases w; simp only at hw; subst hw
+    by_cases he : Gen.itemOf_expiredWithNow i.e s.now <;> simp [deep_simp, hide, he]
+  · rfl
+
 theorem loop_items (call : List (Val K V) → W K V → Deep.Res K V) (now : Int) (F N : Val K V)
     (hcall : ∀ k (i : Item V) (w : W K V) (es : List (K × V)), w.heap = [.gomap es, F, N] → call [.key k, ofItem i] w =
       if Gen.itemOf_expiredWithNow i.e now then some ([.bool true], w)
@@ -206,6 +219,17 @@ theorem loop_items (call : List (Val K V) → W K V → Deep.Res K V) (now : Int
 theorem deep_items (s : CSt K V) :
     deepStep twinMapOf s .items = some (Model.CacheOf.step s .items) := by
   simp [deep_simp, twinMapOf]
+  rw [loop_items (now := s.now) (es := [])]
+  case hw => rfl
+  case hcall =>
+    intro k i w es hw
+    cases w; simp only at hw; subst hw
+    by_cases he : Gen.itemOf_expiredWithNow i.e s.now <;> simp [deep_simp, hide, he]
+  simp [deep_simp]
+
+theorem deep_items_handed (s : CSt K V) (π : List (K × Item V)) :
+    deepStep (twinMapOfHanded π) s .items = some (s, { out := .items (Model.CacheOf.walk s.now (fun _ _ => true) π) }) := by
+  simp [deep_simp, twinMapOfHanded, twinMapOf]
   rw [loop_items (now := s.now) (es := [])]
   case hw => rfl
   case hcall =>
